@@ -585,7 +585,7 @@ impl Prop for P {
     const ENGINE: &'static str = "E8-proc";
 
     fn cases(tier: Tier) -> u32 {
-        tier.pick(3000, 60000)
+        tier.pick(2000, 60000)
     }
 
     fn strategy(tier: Tier) -> BoxedStrategy<Case> {
